@@ -12,7 +12,7 @@ namespace tun {
 using namespace hz;
 using scn::fmt;
 
-enum Mode { FAULTY = 1, CLEAN = 2, RECOVER = 3 };
+enum Mode { FAULTY = 1, CLEAN = 2, RECOVER = 3, REDELIVER = 4 /* clean path through a relay that re-delivers queries (C16) */ };
 
 struct Offer { uint64_t at; int side; /* -1 server, k client */ int dst; /* -1 server, k client slot, 9 nobody */ Bytes pkt; bool judged; uint64_t accepted_at = 0; bool accepted = false; };
 
@@ -83,8 +83,14 @@ inline void run_tunnel(Tape &t, Mode mode, Run &R)
 	R.cfg = gen_config(t, mode);
 	scn::Config &c = R.cfg;
 	// a relay in the path (C01: DNS-id rewriting and case-randomising relays; C02: id rewriting only, the path stays intact)
-	bool use_relay = !c.raw_mode && !c.client_v6 && t.chance(1, mode == FAULTY ? 3 : 6);
+	if (mode == REDELIVER) { c.raw_mode = false; c.client_v6 = false; }
+	bool use_relay = !c.raw_mode && !c.client_v6 && (mode == REDELIVER || t.chance(1, mode == FAULTY ? 3 : 6));
 	if (use_relay) c.nameserver = sim::Addr::v4(192, 0, 2, 53, 53);
+	// The relay passes answers above 512 bytes only to queries that carried an EDNS0 OPT record.  With PRIVATE queries the client
+	// never uses EDNS0 (its EDNS0 test asks for a Base32 answer, which the server refuses for PRIVATE), so a FORCED fragment size
+	// must leave room for a full-length question in a 512-byte answer: 12 + (257+4) + 12 + 2 + F <= 512.  (Autoprobing finds
+	// this by itself; a larger forced size is a misconfiguration of the session, not a defect, and only loss-judging modes care.)
+	if (use_relay && mode != FAULTY && c.qtype == 2 && c.frag > 220) c.frag = 220;
 	scn::Session s(c);
 	R.tm.attach(sim::W);
 	if (use_relay) {
@@ -93,6 +99,14 @@ inline void run_tunnel(Tape &t, Mode mode, Run &R)
 		P.rewrite_ids = true;
 		R.relay_case = mode == FAULTY ? (int)t.pick({2, 2, 3}) : 0;
 		if (R.relay_case == 1) { P.q.kase = 3; if (t.chance(1, 2)) P.a.kase = 3; }
+		if (mode == REDELIVER) {
+			// half of the relays randomise letter case from the start (the client then settles on Base32 and a repeat may differ in case)
+			if (t.chance(1, 2)) { P.q.kase = 3; R.relay_case = 1; }
+			R.relay->redeliver = true; R.relay->t = &t; R.relay->p_red = (uint32_t)t.range(100, 600);
+			// second upstream address of the relay: another port of the same host while the server checks source addresses
+			// (it compares the IP address only), another host with -c
+			R.relay->back2 = c.check_ip ? sim::Addr::v4(192, 0, 2, 53, 3054) : sim::Addr::v4(192, 0, 2, 54, 3054);
+		}
 		R.relay->p = P; R.relay->rnd = t.u32() | 1;
 		R.relay->front = c.nameserver; R.relay->back = sim::Addr::v4(192, 0, 2, 53, 3053); R.relay->server = scn::SRV4;
 		R.relay->attach();
@@ -161,7 +175,7 @@ inline void run_tunnel(Tape &t, Mode mode, Run &R)
 	uint64_t t0 = sim::W.now + 2000000;   // let the first pings settle
 	int upcap = up_capacity(c);
 	int dncap = R.down_frag > 0 ? R.down_frag : (c.frag > 0 ? c.frag : 100);
-	int noffers = mode == RECOVER ? t.range(0, 25) : t.range(1, mode == CLEAN ? 40 : 30);
+	int noffers = mode == RECOVER ? t.range(0, 25) : t.range(1, mode == CLEAN || mode == REDELIVER ? 40 : 30);
 	uint64_t at = t0;
 	uint16_t ident = 1;
 	uint64_t fault_len = mode == FAULTY ? (uint64_t)t.range(1, 40) * 1000000 : (mode == RECOVER ? (uint64_t)t.range(1, 40) * 1000000 : 0);
@@ -169,7 +183,7 @@ inline void run_tunnel(Tape &t, Mode mode, Run &R)
 		Offer o;
 		uint64_t gap;
 		switch (t.pick({5, 3, 2, 1})) { case 0: gap = t.below(20000); break; case 1: gap = t.below(600000); break; case 2: gap = 1000000 + t.below(4000000); break; default: gap = 5000000 + t.below(25000000); break; }
-		if (mode != CLEAN && at + gap > t0 + fault_len) gap = t.below(50000);
+		if (mode != CLEAN && mode != REDELIVER && at + gap > t0 + fault_len) gap = t.below(50000);
 		if (gap > 4500000) R.idle_gap = true;
 		at += gap;
 		o.at = at;
@@ -180,7 +194,7 @@ inline void run_tunnel(Tape &t, Mode mode, Run &R)
 		Bytes dst = o.dst < 0 ? sip : (o.dst == 9 ? Bytes{sip[0], sip[1], sip[2], (uint8_t)(sip[3] ^ 0x80)} : cip[o.dst]);
 		Bytes src = side < 0 ? sip : cip[side];
 		size_t maxbody = t.chance(1, 8) ? 3800 : 1400;
-		if (mode == CLEAN) {
+		if (mode == CLEAN || mode == REDELIVER) {
 			// (a) judges exactly-once delivery; an oversize packet is self-inflicted trouble (the sender retransmits
 			// an unacknowledgeable fragment for seconds and by design drops tun packets meanwhile), so clean-path
 			// runs only offer packets that fit the 16-fragment limit with margin
@@ -221,7 +235,7 @@ inline void run_tunnel(Tape &t, Mode mode, Run &R)
 	// run the offers
 	size_t next = 0;
 	uint64_t end_faults = t0 + fault_len;
-	uint64_t horizon = (mode == CLEAN ? at + 8000000 : end_faults);
+	uint64_t horizon = (mode == CLEAN ? at + 8000000 : (mode == REDELIVER ? at + 20000000 : end_faults));
 	while (sim::W.now < horizon && !sim::W.livelock) {
 		uint64_t until = horizon;
 		if (next < R.offers.size()) until = std::min(until, R.offers[next].at);
@@ -230,7 +244,7 @@ inline void run_tunnel(Tape &t, Mode mode, Run &R)
 			Offer &o = R.offers[next++];
 			sim::W.offer_tun(o.side < 0 ? s.srv : s.cli[o.side], o.pkt);
 		}
-		if (next >= R.offers.size() && mode != CLEAN) { sim::W.run_until(horizon); break; }
+		if (next >= R.offers.size() && mode != CLEAN && mode != REDELIVER) { sim::W.run_until(horizon); break; }
 	}
 	R.fn.active = false;
 	if (mode == FAULTY) sim::W.run_for(8000000);     // drain on a clean network so late deliveries are also checked
@@ -275,7 +289,7 @@ inline void run_tunnel(Tape &t, Mode mode, Run &R)
 	for (auto &o : R.offers) if (show++ < 6) R.render += fmt("\n  offer t=%.3fs %s->%s %zuB %s", (o.at - t0) / 1e6, o.side < 0 ? "srv" : fmt("cli%d", o.side).c_str(), o.dst < 0 ? "srv" : (o.dst == 9 ? "nobody" : fmt("cli%d", o.dst).c_str()), o.pkt.size(), hexs(o.pkt, 28).c_str());
 
 	// ---- C02 oracles
-	if (mode == CLEAN || mode == RECOVER) {
+	if (mode == CLEAN || mode == RECOVER || mode == REDELIVER) {
 		if (R.exited) R.v.fail("C02", "C02:exited", "a program exited during the scenario\n" + R.client_log.substr(R.client_log.size() > 600 ? R.client_log.size() - 600 : 0));
 		// per direction: judged accepted packets must be written at the receiver exactly once (CLEAN) / at least once (RECOVER suffix), in order
 		for (int dir = 0; dir < 2; dir++) {
@@ -293,13 +307,16 @@ inline void run_tunnel(Tape &t, Mode mode, Run &R)
 				}
 				int count = 0; size_t pos = 0; uint64_t tw = 0;
 				for (size_t k = 0; k < wr.size(); k++) if (wr[k].data == o.pkt) { if (!count) { pos = k; tw = wr[k].t; } count++; }
-				uint64_t limit = mode == CLEAN ? 5000000 : 10000000;
+				// REDELIVER: an answer to a case-changed repeat that became the pending query may carry a fragment and is swallowed by
+				// the relay; the server repeats it on the next query, so every such event may cost a ping interval
+				uint64_t limit = mode == CLEAN ? 5000000 : (mode == REDELIVER ? 18000000 : 10000000);
 				if (count == 0) {
+					if (mode == REDELIVER && dir == 1 && R.relay->n_swallowed_data > 0) continue;   // see relay.h: not the server's doing
 					if (sim::W.now - o.accepted_at > limit)
 						R.v.fail("C02", dir == 0 ? "C02:lost-upstream" : "C02:lost-downstream", fmt("packet (%zu bytes, ident %u) accepted at t=%.3fs on the %s was never written to the peer's tun device", o.pkt.size(), (o.pkt[8] << 8) | o.pkt[9], o.accepted_at / 1e6, dir == 0 ? "client" : "server"));
 					continue;
 				}
-				if (mode == CLEAN && count > 1) R.v.fail("C02", "C02:duplicate", fmt("packet ident %u delivered %d times on a clean path", (o.pkt[8] << 8) | o.pkt[9], count));
+				if ((mode == CLEAN || mode == REDELIVER) && count > 1) R.v.fail("C02", "C02:duplicate", fmt("packet ident %u delivered %d times on a clean path", (o.pkt[8] << 8) | o.pkt[9], count));
 				if (tw - o.accepted_at > limit) R.v.fail("C02", "C02:late", fmt("packet ident %u delivered %.3fs after it was accepted", (o.pkt[8] << 8) | o.pkt[9], (tw - o.accepted_at) / 1e6));
 				if (!first && pos < lastpos) R.v.fail("C02", "C02:reordered", fmt("packet ident %u delivered before an earlier accepted packet", (o.pkt[8] << 8) | o.pkt[9]));
 				lastpos = pos; first = false;
